@@ -53,3 +53,13 @@ Theorem C17_redis_double_gc_decr_refuted :
     red_prom (red_gc T (red_gc T st0)) = (0, 0, 0).
 Proof. exact redis_double_gc_decr_refuted. Qed.
 Print Assumptions C17_redis_double_gc_decr_refuted.
+
+(* ---- memory store, "within each shard at every instant a reader can observe": in EVERY state of EVERY
+   schedule of request threads and expiry passes (fine-grained lock machine, Model/Locks.v), started from
+   any store whose counters are exact, every shard's counters equal a recount of that shard *)
+From Chihaya Require Import Model.Locks Model.MemLocks Proofs.LocksP Proofs.MemLocksP.
+Theorem C17_mem_conc_totals_exact : forall n (st : mstore) (ps : list mprog) sched,
+  Forall counts_ok st ->
+  Forall counts_ok (shards (run (msem false) sched (msh_init st, map mthread_of (map (mprog_acts n) ps))).1).
+Proof. exact mem_conc_totals_exact. Qed.
+Print Assumptions C17_mem_conc_totals_exact.
